@@ -639,7 +639,8 @@ fn verif_c10_query_short() {
 //             inputs then differ in timing.
 //   Record k of shard s: data record = the share of s*1000+k (BA64); for `aad` its tag is the plain
 //   value 500000+s*1000+k, the same on the three helpers, and the picker looks the destination up by
-//   the TAG it is handed (`dests[tag's shard][tag's position]`); for `try`/`stream` the record itself is
+//   the TAG it is handed (`dests[tag's shard][tag's position]`; a tag that arrives with a record id other
+//   than its position in the stream is sent to the NEXT shard instead); for `try`/`stream` the record itself is
 //   resharded and the picker uses (shard, record id) as in `c19.reshard`.
 //   Response, per shard `/`-separated:
 //     aad          `<kept data records>;<tags received>` (reconstructed / plain; `-` = empty)
@@ -793,9 +794,14 @@ pub mod c19_aad {
                         items.insert(pos.min(len), Err(Error::InconsistentShares));
                     }
                     let input = Hinted { inner: Box::pin(Stalled { inner: Box::pin(stream::iter(items)), yielded: 0, stalls, next: 0 }), hint };
-                    let picker = move |_: C, _: RecordId, tag: &BA64| {
+                    let shards = table.len();
+                    let picker = move |_: C, rid: RecordId, tag: &BA64| {
                         let t = usize::try_from(tag.as_u128() - TAG_BASE).unwrap();
-                        ShardIndex::from(table[t / 1000][t % 1000])
+                        let d = table[t / 1000][t % 1000] as usize;
+                        // the record id handed to the picker is the position of the record in the input stream (stalls
+                        // consume no ids): otherwise the tag is deliberately misrouted, which the oracle reports
+                        let d = if usize::from(rid) == t % 1000 { d } else { (d + 1) % shards };
+                        ShardIndex::from(d as u32)
                     };
                     reshard_aad(ctx, input, picker).await.map_err(|e| format!("{e:?}"))
                 }
